@@ -92,3 +92,10 @@ def explore(fn, assumptions=(), max_paths=4096, timeout_ms=5000, catch=(Exceptio
         if len(results) + len(stack) > max_paths:
             raise Unsupported(f"path explosion: more than {max_paths} paths")
     return results
+
+
+def current_pc():
+    """path condition of the exploration in progress (list of Sym), or [] outside an exploration"""
+    d = T._decider[0]
+    st = getattr(d, "__self__", None)
+    return list(st.pc) if st is not None else []
